@@ -27,6 +27,65 @@ class EngineGap(Exception):
     """The engine has no model for what the code under test asked for."""
 
 
+def _is_nonlinear(roots):
+    for t in T.postorder(roots):
+        if t.op == 'div' or t.op == 'app':
+            return True
+        if t.op == 'mul' and t.args[0].op != 'const' and t.args[1].op != 'const':
+            return True
+    return False
+
+
+def _isolated(fn, timeout_s):
+    """Run fn() in a forked child; hard kill after timeout_s.  fn returns a JSON-able dict."""
+    import json
+    import os
+    import select
+    import signal
+    r, w = os.pipe()
+    pid = os.fork()
+    if pid == 0:
+        code = 0
+        try:
+            os.close(r)
+            payload = json.dumps(fn()).encode()
+            off = 0
+            while off < len(payload):
+                off += os.write(w, payload[off:off + 65536])
+        except BaseException:      # noqa
+            code = 1
+        finally:
+            os._exit(code)
+    os.close(w)
+    chunks = []
+    deadline = time.time() + timeout_s
+    timed_out = False
+    while True:
+        left = deadline - time.time()
+        if left <= 0:
+            timed_out = True
+            break
+        ready, _, _ = select.select([r], [], [], min(left, 1.0))
+        if ready:
+            data = os.read(r, 1 << 20)
+            if not data:
+                break
+            chunks.append(data)
+    os.close(r)
+    if timed_out:
+        try:
+            os.kill(pid, signal.SIGKILL)
+        except OSError:
+            pass
+    os.waitpid(pid, 0)
+    if timed_out or not chunks:
+        return {'r': 'unknown'}
+    try:
+        return json.loads(b''.join(chunks).decode())
+    except ValueError:
+        return {'r': 'unknown'}
+
+
 class Engine(object):
     def __init__(self):
         self.solver = z3.Solver()
@@ -50,6 +109,7 @@ class Engine(object):
         self.trace = []
         self.pc = []          # path condition: list of bool terms (decisions + assumptions)
         self.axioms = []      # path-local axioms of uninterpreted primitives
+        self.nonlinear = False  # path condition / axioms contain nonlinear terms
         self.poison = set()   # names of 'undefined value' symbols created on this path
         self.hashed = []      # (term, token) pairs for hash-by-entailment
         self.fresh = 0
@@ -58,10 +118,21 @@ class Engine(object):
         self.solver.set('timeout', self.branch_timeout_ms)
 
     # -- solver access
-    def _check(self, *extra):
+    def _check(self, *extra, terms=()):
+        """Satisfiability of path condition + axioms (+ extra).  Linear problems use the incremental
+        solver; as soon as nonlinear terms are involved the query is posed to a fresh solver inside a
+        forked child with a hard kill (z3's own timeout is not reliable on nonlinear goals)."""
         t0 = time.time()
         self.nqueries += 1
-        r = str(self.solver.check(*extra))
+        if self.nonlinear or (terms and _is_nonlinear(list(terms))):
+            def run():
+                s = self.fresh_solver()
+                for e in extra:
+                    s.add(e)
+                return {'r': str(s.check())}
+            r = _isolated(run, 2 * self.branch_timeout_ms / 1000.0 + 2)['r']
+        else:
+            r = str(self.solver.check(*extra))
         self.tsolver += time.time() - t0
         return r
 
@@ -80,9 +151,12 @@ class Engine(object):
     def _fresh_check(self, zc):
         t0 = time.time()
         self.nqueries += 1
-        s = self.fresh_solver()
-        s.add(zc)
-        r = str(s.check())
+
+        def run():
+            s = self.fresh_solver()
+            s.add(zc)
+            return {'r': str(s.check())}
+        r = _isolated(run, 2 * self.branch_timeout_ms / 1000.0 + 2)['r']
         self.tsolver += time.time() - t0
         return r
 
@@ -90,6 +164,8 @@ class Engine(object):
         if t.op == 'true':
             return
         self.axioms.append(t)
+        if not self.nonlinear and _is_nonlinear([t]):
+            self.nonlinear = True
         self.solver.add(T.to_z3(t))
 
     def fresh_name(self, stem):
@@ -109,6 +185,8 @@ class Engine(object):
         if cond.op == 'false':
             raise Infeasible()
         self.pc.append(cond)
+        if not self.nonlinear and _is_nonlinear([cond]):
+            self.nonlinear = True
         self.solver.add(T.to_z3(cond))
         r = self._check()
         if r == 'unknown':
@@ -122,7 +200,7 @@ class Engine(object):
             return True
         if cond.op == 'false':
             return False
-        return self._check(z3.Not(T.to_z3(cond))) == 'unsat'
+        return self._check(z3.Not(T.to_z3(cond)), terms=(cond,)) == 'unsat'
 
     def branch(self, cond):
         if cond.op == 'true':
@@ -137,11 +215,11 @@ class Engine(object):
             self.trace.append((d, False))
         else:
             zc = T.to_z3(cond)
-            rt = self._check(zc)
-            if rt == 'unknown':
+            rt = self._check(zc, terms=(cond,))
+            if rt == 'unknown' and not self.nonlinear:
                 rt = self._fresh_check(zc)
-            rf = self._check(z3.Not(zc))
-            if rf == 'unknown':
+            rf = self._check(z3.Not(zc), terms=(cond,))
+            if rf == 'unknown' and not self.nonlinear:
                 rf = self._fresh_check(z3.Not(zc))
             if rt == 'unknown' or rf == 'unknown':
                 self.unknown_branches += 1
@@ -160,6 +238,8 @@ class Engine(object):
                 raise Infeasible()
         c = cond if d else T.not_(cond)
         self.pc.append(c)
+        if not self.nonlinear and _is_nonlinear([c]):
+            self.nonlinear = True
         self.solver.add(T.to_z3(c))
         return d
 
